@@ -326,6 +326,36 @@ def _callee_of(t, pos):
     return None
 
 
+_LOOP_RE = re.compile(r'\b(?:for\s+[^;{}]*?\bin\b|while\b|loop\b)')
+
+
+def bare_loops(fn_text):
+    """Loops of an extracted function that carry no invariant / decreases / ensures clause.  Verus proves nothing THROUGH such a loop (everything
+    the loop touches is havocked): a failed obligation in a function that has more of them than on the unchanged tree is a tool limit."""
+    t = _strip_comments_strings(fn_text)
+    n = 0
+    for m in _LOOP_RE.finditer(t):
+        depth, j = 0, m.end()
+        while j < len(t):
+            c = t[j]
+            if c in '([':
+                depth += 1
+            elif c in ')]':
+                depth -= 1
+            elif c == '{' and depth <= 0:
+                break
+            elif c == ';' and depth <= 0:
+                j = -1
+                break
+            j += 1
+        if j < 0 or j >= len(t):
+            continue
+        head = t[m.start():j]
+        if not re.search(r'\b(invariant|invariant_except_break|decreases|ensures)\b', head):
+            n += 1
+    return n
+
+
 def opaque_closures(fn_text, unit_text):
     """Closures of an extracted function that carry no contract AND are handed to something whose contract may speak about what they return:
     every callee that is not a shim defined in the unit, and every shim of the unit whose contract mentions the closure's requires()/ensures().
@@ -684,7 +714,7 @@ def build(template_path, variant=None):
         ft = ex.pop('fn_text')
         if ex.get('kind') == 'fn':
             shim_text = full.replace(ft, '')
-            ex['opaque_closures'] = opaque_closures(ft, shim_text)
+            ex['opaque_closures'] = opaque_closures(ft, shim_text) + bare_loops(ft)
     return full, report
 
 
